@@ -10,12 +10,14 @@ import (
 	"math/rand"
 	"os"
 	"sort"
+	"time"
 	. "zharness/hz"
 
 	"github.com/zenon-network/go-zenon/chain/nom"
 	"github.com/zenon-network/go-zenon/common"
 	"github.com/zenon-network/go-zenon/common/types"
 	"github.com/zenon-network/go-zenon/verifier"
+	"github.com/zenon-network/go-zenon/vm/abi"
 	"github.com/zenon-network/go-zenon/vm/constants"
 	"github.com/zenon-network/go-zenon/vm/embedded/definition"
 	"github.com/zenon-network/go-zenon/wallet"
@@ -25,7 +27,11 @@ func main() { Main(map[string]Runner{"hist": runHist}) }
 
 func runHist(rng *rand.Rand, n int, out *Out, _ []string) {
 	for i := 0; i < n; i++ {
-		history(rng, out, 70+rng.Intn(60))
+		if i%15 == 14 {
+			rewardHistory(rng, out)
+		} else {
+			history(rng, out, 55+rng.Intn(50))
+		}
 	}
 }
 
@@ -40,12 +46,15 @@ type hist struct {
 	tokens []types.ZenonTokenStandard
 	owned  map[types.Address][]types.ZenonTokenStandard
 	prev   *Scan // confirmed state after the last momentum
+	xcache map[types.Hash]M // contract receive (by hash) -> its op, built when first seen in the pool
+	quiet  bool             // reward histories: scan only momentums with content
+	forced *forcedCall
 }
 
 func history(rng *rand.Rand, out *Out, steps int) {
 	nd := NewNode()
 	defer nd.Stop()
-	h := &hist{nd: nd, rng: rng, out: out, ids: NewIDs(), sc: NewScanner(nd), actors: Actors()}
+	h := &hist{nd: nd, rng: rng, out: out, ids: NewIDs(), sc: NewScanner(nd), actors: Actors(), xcache: map[types.Hash]M{}}
 	for _, kp := range h.actors {
 		h.users = append(h.users, kp.Address)
 	}
@@ -56,8 +65,12 @@ func history(rng *rand.Rand, out *Out, steps int) {
 		switch k := rng.Intn(100); {
 		case k < 30:
 			h.attemptSend(false)
-		case k < 55:
+		case k < 50:
 			h.attemptSend(true)
+		case k < 55:
+			if !h.ownerMint() {
+				h.attemptSend(true)
+			}
 		case k < 80:
 			h.attemptReceive()
 		default:
@@ -78,6 +91,14 @@ func (h *hist) momentum() {
 	if after != before+1 {
 		h.out.Count("c01:momentum-not-inserted")
 		return
+	}
+	if h.quiet {
+		// long reward histories: a momentum without content and with an empty pool changes nothing
+		fm, _ := h.nd.Ch.GetFrontierMomentumStore().GetFrontierMomentum()
+		if fm != nil && len(fm.Content) == 0 && len(h.nd.Ch.GetAllUncommittedAccountBlocks()) == 0 {
+			h.out.Count("c01:reward-history:empty-momentum-skipped")
+			return
+		}
 	}
 	cur := h.sc.Scan(false)
 	ok, d := cur.SupplyOracle()
@@ -137,6 +158,9 @@ func (h *hist) callTerm(send, recv *nom.AccountBlock) (M, string) {
 						ti, _ := h.nd.Ch.GetFrontierMomentumStore().GetTokenInfoByTs(p.TokenStandard)
 						fmt.Fprintf(os.Stderr, "MINT success=%v sender=%v zts=%v amt=%v to=%v info=%+v\n", success, send.Address, p.TokenStandard, p.Amount, p.ReceiveAddress, ti)
 					}
+					if types.IsEmbeddedAddress(send.Address) {
+						h.out.Count(fmt.Sprintf("c01:reward-mint:by=%s:success=%v", contractABI[send.Address].name, success))
+					}
 					return Con("KMint", I64(x.Zts(p.TokenStandard)), Big(p.Amount), I64(x.Addr(p.ReceiveAddress)), true, dok), "mint"
 				}
 			case definition.BurnMethodName:
@@ -178,14 +202,14 @@ func (h *hist) opsOf(blocks []*nom.AccountBlock, confirm bool, involved map[type
 		case nom.BlockTypeUserSend:
 			involved[b.Address] = true
 			involved[b.ToAddress] = true
-			ops = append(ops, Con("OSend", I64(x.Hash(b.Hash)), I64(x.Addr(b.Address)), I64(x.Addr(b.ToAddress)), I64(x.Zts(b.TokenStandard)), Big(b.Amount), true))
+			ops = append(ops, Con("XPlain", Con("OSend", I64(x.Hash(b.Hash)), I64(x.Addr(b.Address)), I64(x.Addr(b.ToAddress)), I64(x.Zts(b.TokenStandard)), Big(b.Amount), true)))
 			if confirm {
-				ops = append(ops, Con("OConfirm", I64(x.Hash(b.Hash))))
+				ops = append(ops, Con("XPlain", Con("OConfirm", I64(x.Hash(b.Hash)))))
 			}
 			h.out.Count("c01:op:user-send")
 		case nom.BlockTypeUserReceive:
 			involved[b.Address] = true
-			ops = append(ops, Con("OReceive", I64(x.Addr(b.Address)), I64(x.Hash(b.FromBlockHash))))
+			ops = append(ops, Con("XPlain", Con("OReceive", I64(x.Addr(b.Address)), I64(x.Hash(b.FromBlockHash)))))
 			h.out.Count("c01:op:user-receive")
 		case nom.BlockTypeContractReceive:
 			involved[b.Address] = true
@@ -194,16 +218,35 @@ func (h *hist) opsOf(blocks []*nom.AccountBlock, confirm bool, involved map[type
 				panic("contract receive of a send that is not on the ledger")
 			}
 			involved[send.Address] = true
-			k, kind := h.callTerm(send, b)
 			dh := Lst()
 			for _, d := range b.DescendantBlocks {
 				involved[d.ToAddress] = true
 				dh = append(dh, I64(x.Hash(d.Hash)))
 			}
-			ops = append(ops, Con("OContractReceive", I64(x.Addr(b.Address)), I64(x.Hash(b.FromBlockHash)), k, dh, true))
+			kind := ""
+			if xo, ok := h.xcache[b.Hash]; ok {
+				ops = append(ops, xo)
+				kind = "concrete-body"
+			} else if xo, name := h.embTerm(send, b, dh); xo != nil {
+				h.xcache[b.Hash] = xo
+				ops = append(ops, xo)
+				kind = "concrete-body"
+				h.out.Count("c01:method:concrete(Emb.v):" + name)
+			} else {
+				var k M
+				k, kind = h.callTerm(send, b)
+				ops = append(ops, Con("XPlain", Con("OContractReceive", I64(x.Addr(b.Address)), I64(x.Hash(b.FromBlockHash)), k, dh, true)))
+				if !confirm {
+					if kind == "other-ok" || kind == "other-fail" {
+						h.out.Count("c01:method:parametric:" + methodName(send))
+					} else {
+						h.out.Count("c01:method:concrete(Ledger.v):token." + kind)
+					}
+				}
+			}
 			if confirm {
 				for _, d := range b.DescendantBlocks {
-					ops = append(ops, Con("OConfirm", I64(x.Hash(d.Hash))))
+					ops = append(ops, Con("XPlain", Con("OConfirm", I64(x.Hash(d.Hash)))))
 				}
 			}
 			st := "ok"
@@ -214,6 +257,9 @@ func (h *hist) opsOf(blocks []*nom.AccountBlock, confirm bool, involved map[type
 				}
 			}
 			h.out.Count("c01:op:contract-receive:" + kind + ":" + st)
+			if h.quiet && !confirm {
+				h.out.Count(fmt.Sprintf("c01:reward-history:%s:%s:at-height-%d00", methodName(send), st, h.nd.FrontierHeight()/100))
+			}
 		}
 	}
 	return ops
@@ -392,10 +438,16 @@ func (h *hist) pickAmount(bal *big.Int) *big.Int {
 func (h *hist) attemptSend(call bool) {
 	rng := h.rng
 	kp := h.actors[rng.Intn(len(h.actors))]
+	if h.forced != nil {
+		kp = h.forced.kp
+	}
 	b := &nom.AccountBlock{BlockType: nom.BlockTypeUserSend, Address: kp.Address}
 	tag := "transfer"
 	if call {
 		c := RandomCall(rng, kp.Address, h.tokens, h.owned[kp.Address], h.users)
+		if h.forced != nil {
+			c = h.forced.c
+		}
 		b.ToAddress, b.TokenStandard, b.Amount, b.Data = c.To, c.Zts, c.Amount, c.Data
 		tag = "call:" + c.Name
 	} else {
@@ -582,4 +634,242 @@ func (h *hist) statementOracles(pre, post *Scan, blocks []*nom.AccountBlock, tag
 		changed = z.String() + " (vanished)"
 	}
 	h.out.Oracle(changed == "" || tokenOp, "c01-supply-changes-only-by-token-ops", M{"token": changed, "segment": tag, "height": post.Height})
+}
+
+var contractABI = map[types.Address]struct {
+	name string
+	abi  interface {
+		MethodById([]byte) (*abi.Method, error)
+	}
+}{}
+
+func init() {
+	contractABI[types.PillarContract] = struct {
+		name string
+		abi  interface {
+			MethodById([]byte) (*abi.Method, error)
+		}
+	}{"pillar", &definition.ABIPillars}
+	contractABI[types.SentinelContract] = struct {
+		name string
+		abi  interface {
+			MethodById([]byte) (*abi.Method, error)
+		}
+	}{"sentinel", &definition.ABISentinel}
+	contractABI[types.StakeContract] = struct {
+		name string
+		abi  interface {
+			MethodById([]byte) (*abi.Method, error)
+		}
+	}{"stake", &definition.ABIStake}
+	contractABI[types.PlasmaContract] = struct {
+		name string
+		abi  interface {
+			MethodById([]byte) (*abi.Method, error)
+		}
+	}{"plasma", &definition.ABIPlasma}
+	contractABI[types.AcceleratorContract] = struct {
+		name string
+		abi  interface {
+			MethodById([]byte) (*abi.Method, error)
+		}
+	}{"accelerator", &definition.ABIAccelerator}
+	contractABI[types.LiquidityContract] = struct {
+		name string
+		abi  interface {
+			MethodById([]byte) (*abi.Method, error)
+		}
+	}{"liquidity", &definition.ABILiquidity}
+	contractABI[types.TokenContract] = struct {
+		name string
+		abi  interface {
+			MethodById([]byte) (*abi.Method, error)
+		}
+	}{"token", &definition.ABIToken}
+}
+
+func methodName(send *nom.AccountBlock) string {
+	c, ok := contractABI[send.ToAddress]
+	if !ok {
+		return "other-contract"
+	}
+	m, err := c.abi.MethodById(send.Data)
+	if err != nil {
+		return c.name + ".?"
+	}
+	return c.name + "." + m.Name
+}
+
+// embTerm: the receive of one of the methods whose body is concrete in the model (coq/theories/Emb.v via LedgerEmb.v):
+// the op carries the send data, the frontier momentum of the receive context and the ONE storage entry the body reads,
+// read from the contract's storage as it was below the receive block. nil = not such a method / storage not available.
+func (h *hist) embTerm(send, recv *nom.AccountBlock, dh []interface{}) (M, string) {
+	name := methodName(send)
+	as := h.nd.Ch.GetAccountStore(recv.Address, recv.Previous())
+	ms := h.nd.Ch.GetMomentumStore(recv.MomentumAcknowledged)
+	if as == nil || ms == nil {
+		return nil, name
+	}
+	fm, err := ms.GetFrontierMomentum()
+	if err != nil || fm == nil {
+		return nil, name
+	}
+	st := as.Storage()
+	var m M
+	switch name {
+	case "accelerator.Donate", "liquidity.Donate":
+		m = Con("MDonate")
+	case "pillar.DepositQsr", "sentinel.DepositQsr":
+		m = Con("MDepositQsr")
+	case "pillar.WithdrawQsr", "sentinel.WithdrawQsr":
+		d, err := definition.GetQsrDeposit(st, &send.Address)
+		if err != nil {
+			return nil, name
+		}
+		m = Con("MWithdrawQsr", Big(d.Qsr))
+	case "pillar.CollectReward", "sentinel.CollectReward", "stake.CollectReward", "liquidity.CollectReward":
+		d, err := definition.GetRewardDeposit(st, &send.Address)
+		if err != nil {
+			return nil, name
+		}
+		m = Con("MCollectReward", Big(d.Znn), Big(d.Qsr))
+	case "plasma.Fuse":
+		m = Con("MFuse")
+	case "plasma.CancelFuse":
+		id := new(types.Hash)
+		if err := definition.ABIPlasma.UnpackMethod(id, definition.CancelFuseMethodName, send.Data); err != nil {
+			return nil, name
+		}
+		e, err := definition.GetFusionInfo(st, send.Address, *id)
+		if err == constants.ErrDataNonExistent {
+			m = Con("MCancelFuse", None())
+		} else if err != nil {
+			return nil, name
+		} else {
+			m = Con("MCancelFuse", Some(Tup(Big(e.Amount), U64(e.ExpirationHeight))))
+		}
+	case "stake.Stake":
+		m = Con("MStake")
+	case "stake.Cancel":
+		id := new(types.Hash)
+		if err := definition.ABIStake.UnpackMethod(id, definition.CancelStakeMethodName, send.Data); err != nil {
+			return nil, name
+		}
+		e, err := definition.GetStakeInfo(st, *id, send.Address)
+		if err == constants.ErrDataNonExistent {
+			m = Con("MCancelStake", None())
+		} else if err != nil {
+			return nil, name
+		} else {
+			m = Con("MCancelStake", Some(Tup(Big(e.Amount), I64(e.ExpirationTime))))
+		}
+	default:
+		return nil, name
+	}
+	x := h.ids
+	return Con("XEmb", I64(x.Addr(recv.Address)), I64(x.Hash(recv.FromBlockHash)), m, I64(fm.Timestamp.Unix()), U64(fm.Height),
+		Byt(send.Data), dh, true, true), name
+}
+
+// ownerMint: the owner of a mintable user token mints within the remaining supply
+func (h *hist) ownerMint() bool {
+	if h.prev == nil {
+		return false
+	}
+	var cands []*definition.TokenInfo
+	for _, t := range h.prev.Tokens {
+		if t.IsMintable && KeyOf(t.Owner) != nil && new(big.Int).Sub(t.MaxSupply, t.TotalSupply).Sign() > 0 {
+			for _, kp := range h.actors {
+				if kp.Address == t.Owner {
+					cands = append(cands, t)
+				}
+			}
+		}
+	}
+	if len(cands) == 0 {
+		return false
+	}
+	t := cands[h.rng.Intn(len(cands))]
+	gap := new(big.Int).Sub(t.MaxSupply, t.TotalSupply)
+	amt := new(big.Int).Add(new(big.Int).Rand(h.rng, gap), big.NewInt(1))
+	if amt.Cmp(gap) > 0 {
+		amt = gap
+	}
+	to := h.users[h.rng.Intn(len(h.users))]
+	if h.rng.Intn(4) == 0 {
+		to = []types.Address{types.LiquidityContract, types.AcceleratorContract}[h.rng.Intn(2)]
+	}
+	h.sendCall(KeyOf(t.Owner), Call{"token.Mint", types.TokenContract, types.ZnnTokenStandard, big.NewInt(0),
+		definition.ABIToken.PackMethodPanic(definition.MintMethodName, t.TokenStandard, amt, to)})
+	return true
+}
+
+// ---------------------------------------------------------------- histories with reward minting
+// Epochs of 600 s (the shortest consensus supports): the pillar / sentinel / stake / liquidity contracts are updated by
+// the producers one hour after an epoch ends, users that delegate or stake collect (the contract sends Mint calls to
+// the token contract, which mints ZNN / QSR), stakes are cancelled and fusions cancelled after their lock.
+func rewardHistory(rng *rand.Rand, out *Out) {
+	nd := NewNodeEpoch(600 * time.Second)
+	defer nd.Stop()
+	h := &hist{nd: nd, rng: rng, out: out, ids: NewIDs(), sc: NewScanner(nd), actors: Actors(), xcache: map[types.Hash]M{}, quiet: true}
+	for _, kp := range h.actors {
+		h.users = append(h.users, kp.Address)
+	}
+	h.prev = h.sc.Scan(false)
+	ok, d := h.prev.SupplyOracle()
+	out.Oracle(ok, "c01-genesis-supply", d)
+	out.Count("c01:reward-history")
+	// early: stakes, a fusion, liquidity donations
+	for i := 0; i < 3; i++ {
+		kp := h.actors[rng.Intn(len(h.actors))]
+		h.sendCall(kp, Call{"stake.Stake", types.StakeContract, types.ZnnTokenStandard, zx(int64(5 + rng.Intn(40))),
+			definition.ABIStake.PackMethodPanic(definition.StakeMethodName, int64(constants.StakeTimeMinSec))})
+	}
+	h.sendCall(h.actors[0], Call{"plasma.Fuse", types.PlasmaContract, types.QsrTokenStandard, zx(20),
+		definition.ABIPlasma.PackMethodPanic(definition.FuseMethodName, h.actors[1].Address)})
+	total := 615 + rng.Intn(40)
+	collectFrom := 606
+	for i := 0; i < total; i++ {
+		if i >= collectFrom && rng.Intn(4) == 0 {
+			kp := h.actors[rng.Intn(len(h.actors))]
+			c := []types.Address{types.PillarContract, types.PillarContract, types.StakeContract, types.SentinelContract}[rng.Intn(4)]
+			h.sendCall(kp, Call{"common.CollectReward", c, types.ZnnTokenStandard, big.NewInt(0),
+				definition.ABICommon.PackMethodPanic(definition.CollectRewardMethodName)})
+		}
+		if i >= collectFrom && rng.Intn(6) == 0 {
+			h.attemptReceive()
+		}
+		if rng.Intn(40) == 0 {
+			h.attemptSend(false)
+		}
+		if i == 380 {
+			// the fusion can be cancelled after FuseExpiration momentums
+			pl := h.sc.Scan(true)
+			for _, s := range pl.Sends {
+				if s.Confirmed && s.Block.ToAddress == types.PlasmaContract && s.Block.Address == h.actors[0].Address {
+					h.sendCall(h.actors[0], Call{"plasma.CancelFuse", types.PlasmaContract, types.ZnnTokenStandard, big.NewInt(0),
+						definition.ABIPlasma.PackMethodPanic(definition.CancelFuseMethodName, s.Block.Hash)})
+				}
+			}
+		}
+		h.momentum()
+	}
+	for i := 0; i < 4; i++ {
+		h.attemptReceive()
+		h.momentum()
+	}
+}
+
+func zx(n int64) *big.Int { return new(big.Int).Mul(big.NewInt(n), big.NewInt(100000000)) }
+
+// sendCall submits a contract call of the given actor (counted as a c01_step case like every candidate)
+func (h *hist) sendCall(kp *wallet.KeyPair, c Call) {
+	h.forced = &forcedCall{kp, c}
+	h.attemptSend(true)
+	h.forced = nil
+}
+
+type forcedCall struct {
+	kp *wallet.KeyPair
+	c  Call
 }
